@@ -135,6 +135,9 @@ def c12(rec, tier):
     S = SY(rec)
     f11_peephole.run(rec, F, S)
     f2_emit.run_slots(rec, S)
+    # what the rewrites write is encoded and measured by the same tables (a fused op only exists after this pass)
+    T = f1_isa.run_tables(rec, F)
+    f1_isa.run_width(rec, F, T)
 
 
 def c13(rec, tier):
